@@ -1,5 +1,5 @@
 (* C02 — execution ends only at quiescence; no satisfied rule is overlooked (C02_statement in proofs/RefineTheorems.v). *)
-From Grule Require Import Base Values Syntax EngineAbs Facts Eval Refinement RefineTheorems.
+From Grule Require Import Base Values Syntax EngineAbs Facts Eval Frame FrameTheorems Refinement RefineTheorems.
 Theorem C02 : forall rules meth panics_inside mutating
   (meth_pure : forall fs f args ret fs', mutating f = false -> meth fs f args = Ok (ret, fs') -> fs' = fs),
   rules_ok rules mutating -> dependency_hypothesis rules meth mutating ->
@@ -8,3 +8,14 @@ Theorem C02 : forall rules meth panics_inside mutating
   C02_statement rules meth panics_inside es c order.
 Proof. exact C02_proved. Qed.
 Print Assumptions C02.
+
+(* for flat rule sets (proofs/Frame.v: fields of top-level facts, constants, negation, parentheses, binary operators;
+   assignments and control built-ins) both hypotheses are theorems *)
+Theorem C02_flat : forall meth panics_inside mutating
+  (meth_pure : forall fs f args ret fs', mutating f = false -> meth fs f args = Ok (ret, fs') -> fs' = fs)
+  rules, flat_rules rules = true ->
+  forall es, NoDup (map e_key es) -> forall c, (0 <= c_max c)%Z ->
+  forall order, (forall i l, Permutation.Permutation (order i l) l) ->
+  C02_statement rules meth panics_inside es c order.
+Proof. exact FrameTheorems.C02_flat. Qed.
+Print Assumptions C02_flat.
